@@ -6,6 +6,10 @@ package main
 import (
 	"fmt"
 	"math"
+
+	"github.com/sahandsafizadeh/qeep/component/losses"
+	"github.com/sahandsafizadeh/qeep/tensor"
+	xrand "golang.org/x/exp/rand"
 )
 
 func (g *Gen) intn(n int) int { return g.rng.Intn(n) }
@@ -33,8 +37,12 @@ func (g *Gen) valGeneral() float64 {
 func (g *Gen) valsDistinct(n int, lo, hi float64) []float64 {
 	seen := map[float64]bool{}
 	out := make([]float64, 0, n)
+	scale := 1000.0
+	for float64(n)*4 > (hi-lo)*scale {
+		scale *= 10 // enough distinct grid points for long tensors
+	}
 	for len(out) < n {
-		v := math.Round((lo+g.rng.Float64()*(hi-lo))*1000) / 1000
+		v := math.Round((lo+g.rng.Float64()*(hi-lo))*scale) / scale
 		if seen[v] {
 			continue
 		}
@@ -312,4 +320,166 @@ func (g *Gen) directVar(a int, std bool, dim int) {
 		}
 	}
 	g.tag("direct-" + name + "Along")
+}
+
+
+// ---------------------------------------------------------------------------------------------
+// Direct specification oracles for tensors too large for the model's expression trees (the extracted
+// model computes with unary naturals).  Each compares the real library with the specification the model
+// is PROVED equal to (Properties/C05.v: left folds over the row-major sequence; C12: the MSE formula;
+// C18: element k is the affine image of draw k of the global source), evaluated here with the same
+// float operations in the same order.  Tensors used here are not part of the scenario's command list.
+
+func specReduce(k int, xs []float64) float64 {
+	switch k {
+	case 0: // sum
+		s := 0.
+		for _, x := range xs {
+			s = s + x
+		}
+		return s
+	case 1: // max
+		m := math.Inf(-1)
+		for _, x := range xs {
+			if m > x {
+			} else {
+				m = x
+			}
+		}
+		return m
+	case 2: // min
+		m := math.Inf(1)
+		for _, x := range xs {
+			if m < x {
+			} else {
+				m = x
+			}
+		}
+		return m
+	case 3, 6: // avg, mean
+		return specReduce(0, xs) / float64(len(xs))
+	case 4, 5: // var, std
+		mean := specReduce(3, xs)
+		q := 0.
+		for _, x := range xs {
+			q = q + math.Pow(x-mean, 2)
+		}
+		v := 0.
+		if float64(len(xs)) > 1 {
+			v = q / (float64(len(xs)) - 1)
+		}
+		if k == 5 {
+			return math.Sqrt(v)
+		}
+		return v
+	}
+	panic("specReduce")
+}
+
+// directReduceBig builds a fresh large tensor outside the scenario and checks all seven reducers, whole and
+// along every dimension, against specReduce.
+func (g *Gen) directReduceBig(ds []int, vals []float64) {
+	t := makeLeaf(ds, vals, false)
+	ev := &evaluator{}
+	whole := []func() float64{t.Sum, t.Max, t.Min, t.Avg, t.Var, t.Std, t.Mean}
+	for k, f := range whole {
+		if got, exp := f(), specReduce(k, vals); !ev.same(got, exp, false) {
+			g.directs = append(g.directs, Mismatch{Cmd: -1, What: fmt.Sprintf("%s() of a tensor of shape %v differs from the left fold over the row-major sequence", redNames[k], ds),
+				Observed: fmt.Sprint(got), Expected: fmt.Sprint(exp)})
+			return
+		}
+	}
+	type alongF func(int) (tensor.Tensor, error)
+	along := []alongF{t.SumAlong, t.MaxAlong, t.MinAlong, t.AvgAlong, t.VarAlong, t.StdAlong, t.MeanAlong}
+	for dim := range ds {
+		inner := 1
+		for i := dim + 1; i < len(ds); i++ {
+			inner *= ds[i]
+		}
+		outer := prod(ds) / (inner * ds[dim])
+		for k, f := range along {
+			r, err := f(dim)
+			if err != nil {
+				g.directs = append(g.directs, Mismatch{Cmd: -1, What: fmt.Sprintf("%sAlong(%d) on shape %v returned an error", redNames[k], dim, ds), Observed: err.Error()})
+				return
+			}
+			_, rv := readTensor(r)
+			if len(rv) != outer*inner {
+				g.directs = append(g.directs, Mismatch{Cmd: -1, What: fmt.Sprintf("%sAlong(%d) on shape %v has %d elements", redNames[k], dim, ds, len(rv)), Expected: fmt.Sprint(outer * inner)})
+				return
+			}
+			fib := make([]float64, ds[dim])
+			for o := 0; o < outer; o++ {
+				for in := 0; in < inner; in++ {
+					for j := 0; j < ds[dim]; j++ {
+						fib[j] = vals[(o*ds[dim]+j)*inner+in]
+					}
+					if got, exp := rv[o*inner+in], specReduce(k, fib); !ev.same(got, exp, false) {
+						g.directs = append(g.directs, Mismatch{Cmd: -1, What: fmt.Sprintf("%sAlong(%d) on shape %v differs from the fold over the fibre at flat position %d", redNames[k], dim, ds, o*inner+in),
+							Observed: fmt.Sprint(got), Expected: fmt.Sprint(exp)})
+						return
+					}
+				}
+			}
+		}
+	}
+	g.tag("direct-big-reduce")
+}
+
+// directMSEBig: MSE over a batch too large for the model: mean over the batch of (t - p)^2, summed in order
+func (g *Gen) directMSEBig(n int) {
+	pv, tv := g.probVals(n, true), g.probVals(n, true)
+	p, t := makeLeaf([]int{n}, pv, false), makeLeaf([]int{n}, tv, false)
+	l, err := losses.NewMSE().Compute(p, t)
+	if err != nil {
+		g.directs = append(g.directs, Mismatch{Cmd: -1, What: fmt.Sprintf("MSE on a batch of %d returned an error", n), Observed: err.Error()})
+		return
+	}
+	s := 0.
+	for i := range pv {
+		s = s + math.Pow(tv[i]-pv[i], 2)
+	}
+	exp := s / float64(n)
+	_, lv := readTensor(l)
+	if len(lv) != 1 || !(&evaluator{}).same(lv[0], exp, false) {
+		g.directs = append(g.directs, Mismatch{Cmd: -1, What: fmt.Sprintf("MSE on a batch of %d differs from mean((t-p)^2)", n), Observed: fmt.Sprint(lv), Expected: fmt.Sprint(exp)})
+	}
+	g.tag("direct-big-mse")
+}
+
+// directInitBig: a large random tensor; element k (row-major) must be the affine image of draw k of the global
+// source.  Self-contained: reseeds the source before the call and again before replaying the raw draws; must be
+// the LAST thing a scenario does (Runner.Finish replays the scenario's own draws from its own seed).
+func (g *Gen) directInitBig(ds []int) {
+	seed := uint64(g.rng.Int63())
+	normal := g.chance(0.5)
+	a, b := -0.5+g.rng.Float64(), 0.25+g.rng.Float64()
+	xrand.Seed(seed)
+	var t tensor.Tensor
+	var err error
+	if normal {
+		t, err = tensor.RandN(ds, a, b, &tensor.Config{Device: tensor.CPU})
+	} else {
+		t, err = tensor.RandU(ds, a, a+b, &tensor.Config{Device: tensor.CPU})
+	}
+	if err != nil {
+		g.directs = append(g.directs, Mismatch{Cmd: -1, What: fmt.Sprintf("random constructor on shape %v returned an error", ds), Observed: err.Error()})
+		return
+	}
+	_, vals := readTensor(t)
+	xrand.Seed(seed)
+	for k := range vals {
+		var exp float64
+		if normal {
+			exp = xrand.NormFloat64()*b + a
+		} else {
+			exp = xrand.Float64()*((a+b)-a) + a
+		}
+		if vals[k] != exp {
+			g.directs = append(g.directs, Mismatch{Cmd: -1, What: fmt.Sprintf("element %d of a random tensor of shape %v (normal=%v) is not the affine image of draw %d of the global source", k, ds, normal, k),
+				Observed: fmt.Sprint(vals[k]), Expected: fmt.Sprint(exp)})
+			return
+		}
+	}
+	g.tag("direct-big-init")
 }
